@@ -8,6 +8,7 @@ import (
 	"fmt"
 	mrand "math/rand"
 	"runtime"
+	"strings"
 	"sync"
 	"sync/atomic"
 	"time"
@@ -216,12 +217,15 @@ func linearizabilityCheck(c *Ctx) {
 		cases = append(cases, gal.Rec("l_ops", gal.L(ops), "l_order", gal.L(ord)))
 		descr = append(descr, d)
 	}
+	// the interned strings of ALL the cases go into every shard (the cases were printed before they are split into shards)
+	defs := strings.Join(gal.InternDefs(), "\n") + "\n"
+	gal.ResetIntern()
 	for len(cases) > 0 {
 		k := len(cases)
 		if k > 150 {
 			k = 150
 		}
-		c.WriteShardWith("Oidc.Types Store.Spec Store.Memory Store.Redis Corr."+c.Prop, "lin_case", cases[:k], descr[:k], "", "run_lin cases")
+		c.WriteShardWith("Oidc.Types Store.Spec Store.Memory Store.Redis Corr."+c.Prop, "lin_case", cases[:k], descr[:k], defs, "run_lin cases")
 		cases, descr = cases[k:], descr[k:]
 	}
 }
@@ -261,7 +265,7 @@ func systemLevelTimeouts(c *Ctx) {
 		c.Hist("system_level", tc.name)
 		if honouredLate {
 			c.Sum.GoFindings = append(c.Sum.GoFindings, Finding{Signature: "C10/assembled-store-honours-expired-session/" + tc.name,
-				What: fmt.Sprintf("the store assembled by NewSessionStoreFactory.PreRun (memory, %s) still returned the session %.1fs after creation", tc.name, time.Since(t0).Seconds()),
+				What:   fmt.Sprintf("the store assembled by NewSessionStoreFactory.PreRun (memory, %s) still returned the session %.1fs after creation", tc.name, time.Since(t0).Seconds()),
 				Replay: map[string]any{"scenario": tc.name, "abs_s": tc.abs, "idle_s": tc.idle, "waited_ms": time.Since(t0).Milliseconds()}})
 		}
 	}
